@@ -468,6 +468,15 @@ def exec_step(step, sess, chains, audit):
             except Exception as e:
                 obs['after_drop'] = {'exc': f'{type(e).__name__}: {e}'[:300], 'had_data': had_}
         obs['helper_runs'] = rt.STATE['records'][n_before:]
+        # the helpers' default base dir is a fresh directory under the system temp dir that nobody removes: do it here
+        try:
+            import shutil as _sh
+            for h_ in (helper, locals().get('decoy')):
+                b_ = str(h_.get_config().base_dir) if h_ is not None else ''
+                if b_.startswith(_tf.gettempdir() + '/tmp') and not b_.startswith(sess['lab_root']):
+                    _sh.rmtree(b_, ignore_errors=True)
+        except Exception:
+            pass
     elif op == 'migrate':
         import contextlib
         import io
